@@ -38,7 +38,7 @@ PROPS["C12"] = dict(
           "at break points) of a second run on a >= 4x finer grid, tolerance from the 10 printed digits; value independent of the output grid; "
           "fit of a function of the spline space reproduced; documented rejections (derivativezero interpolation, Akima fit, too few points) "
           "accepted as such; any sanitizer report / abort is a failure. Non-trivial: non-uniform input or an output point on an interior "
-          "input point; fit: >= 3 knots. Histories: 35 % of the interp cases use a spline object that interpolated other data before (same / other number of points, same / other boundary condition, once or twice). exe_c12 input tables come as 'x y flag', 'x y yerr flag', each with or without a leading row count; a quarter of the uniform grids cross x = 0 at a knot."),
+          "input point; fit: >= 3 knots. Histories: 35 % of the interp cases use a spline object that interpolated other data before (same / other number of points, same / other boundary condition, once or twice). exe_c12 input tables come as 'x y flag', 'x y yerr flag', each with or without a leading row count; a quarter of the uniform grids cross x = 0 at a knot. fit: 6 % fine fit grids (60..200 knots, h 0.005..0.05); reproduction bound min(1e-8, 256 eps / h^2) x scale (a backward-stable solve loses cond ~ 1/h^2 digits)."),
     assumptions=COMMON_ASSUME + [
         "intervals shorter than 64 ulp of the abscissa are not 'strictly increasing' in any useful sense and are discarded",
         "Table::Smooth: straight-line clause only for uniform grids (the 1-2-1 filter acts on the index)",
